@@ -374,4 +374,9 @@ def specs(tier):
                   "TxDependency::commit; the attempt reads the abstract state version at a solver-chosen moment",
              bounds={"n": 2, "threads": 2, "memory_model": "SC"}),
     ]
+    import c11
+    for s_ in c11.specs(tier):
+        if s_.name == "h3_alloy_adapter":
+            s_.name = "h6_precompile_fault_is_fatal"
+            out.append(s_)
     return out
